@@ -171,6 +171,8 @@ def handler_ops(script):
         elif c == 9:
             ops.append(("fail", script[i + 1])); i += 2
             break
+        elif c == 10:
+            ops.append(("read?", script[i + 1])); i += 2
         else:
             break
     return ops
